@@ -19,7 +19,10 @@ PROPS["C11"] = {
              "section slicing under dictionaries and the length rejection are monitor + correspondence (generated wire messages, three dictionary modes).",
     "note": "Lean kernel + propext/Classical.choice/Quot.sound; dictionaries are inputs of the model (key sets of Header/Trailer, Fields tree per message type), "
             "exported per case from the dictionaries loaded by the real datadictionary.Parse",
-    "rule": "wire messages from the FIX grammar over arbitrary tags and SOH-free values incl. 212/213, none/app/transport+app dictionaries, every single-field "
-            "corruption of BodyLength and of the leading order; distinct = (mode, msgType, section sizes)",
+    "rule": "wire messages from the FIX grammar over arbitrary tags and SOH-free values incl. 212/213, none/app/transport+app dictionaries (also a transport "
+            "dictionary != application dictionary that defines user-defined header/trailer tags 10030/5050), every single-field "
+            "corruption of BodyLength and of the leading order; wire messages carrying groups of the shipped dictionaries (sampled / densely nested, "
+            "sibling nested groups back to back) as built and with a standard or user-defined header/trailer tag directly behind the group's last member; "
+            "distinct = (mode, msgType, section sizes) / (dict, msgType, group, count)",
     "assumptions": ["a fresh Message is the parse target (no reuse of a previous fields array)", "tag texts of at most 18 digits (longer ones wrap in atoi, see C14)"],
 }
